@@ -186,6 +186,42 @@ def run(ctx):
                     i = int(d[0])
                     ctx.violation("history", f"call #{hi_ + 1} on one EAS object (same batch size, different decay altitudes) differs from a fresh object at event {i}: altDec={alt_h[i]!r} gives (PE {np.asarray(got[0])[i]!r}, cos {np.asarray(got[1])[i]!r}) instead of ({np.asarray(ref[0])[i]!r}, {np.asarray(ref[1])[i]!r})", {"call": hi_ + 1, "event": i})
                     break
+            # ---------------- configuration history: one configuration object scanned over area,
+            #                  efficiency and threshold by attribute assignment and by model_copy, the
+            #                  optical stage run after every edit (what a parameter scan in one session does)
+            cfgs_ = NssConfig()
+            nh = 12
+            beh, alh, enh = rng.uniform(0.05, B42, nh), rng.uniform(0.5, 12, nh), 10 ** rng.uniform(0, 2.5, nh)
+            lah, loh = np.zeros(nh), np.zeros(nh)
+            cur_cfg = cfgs_
+            steps_ = [("assign", 2.5, 0.2, 10.0), ("assign", 5.0, 0.2, 10.0), ("assign", 5.0, 0.4, 10.0), ("copy", 1.0, 1.0, 10.0), ("assign", 1.0, 1.0, 3.0), ("copy", 7.3, 0.05, 0.5), ("assign", 2.5, 0.2, 10.0)]
+            for si_, (how, area_, qe_, thr_) in enumerate(steps_):
+                if how == "assign":
+                    cur_cfg.detector.optical.telescope_effective_area = area_
+                    cur_cfg.detector.optical.quantum_efficiency = qe_
+                    cur_cfg.detector.optical.photo_electron_threshold = thr_
+                else:
+                    cur_cfg = cur_cfg.model_copy(deep=True, update={"detector": cur_cfg.detector.model_copy(deep=True, update={"optical": cur_cfg.detector.optical.model_copy(update={"telescope_effective_area": area_, "quantum_efficiency": qe_, "photo_electron_threshold": thr_})})})
+                log["batch"].clear()
+                try:
+                    pe_h, ce_h = (np.asarray(x) for x in EAS(cur_cfg)(beh, alh, enh, lah, loh))
+                except Exception as e:
+                    ctx.exception("raises", f"EAS.__call__ raised at step {si_} of a configuration scan", e, {"step": si_, "how": how})
+                    break
+                if len(log["batch"]) != 1:
+                    break
+                dph_h = log["batch"][0]["out"][0].astype(np.float64)
+                cang_h = log["batch"][0]["out"][1].astype(np.float64)
+                want_h = dph_h * area_ * qe_
+                r_h = want_h / thr_
+                f_h = np.where(r_h > 2.0, np.sqrt(2.0 * np.log(np.where(r_h > 2.0, r_h, 3.0))), 1.0)
+                wc_h = np.cos(np.radians(cang_h * np.maximum(f_h, 1.0)))
+                ctx.count("config-history", nh)
+                ok_h = np.all((np.abs(pe_h - want_h) <= 1e-12 * np.abs(want_h)) | (pe_h == want_h)) and np.all(np.abs(ce_h - wc_h) <= 1e-12)
+                if not ok_h:
+                    i = int(np.argmax(np.abs(pe_h - want_h) / np.maximum(np.abs(want_h), 1e-300)))
+                    ctx.violation("pe", f"step {si_} of a scan over one configuration object ({'attribute assignment' if how == 'assign' else 'model_copy(update=...)'}): area {area_} m^2, efficiency {qe_}, threshold {thr_}: numPEs={pe_h[i]!r} but density {dph_h[i]!r} x area x efficiency = {want_h[i]!r} (effective cosine {ce_h[i]!r}, expected {wc_h[i]!r})", {"step": si_, "how": how, "area": area_, "qe": qe_, "threshold": thr_})
+                    break
             # ---------------- inverse square between detector altitudes -----------------------
             log["batch"].clear()
             k525 = CphotAng(525.0)
@@ -223,7 +259,7 @@ def run(ctx):
     finally:
         CphotAng.__call__ = o_call
         CphotAng.run = o_run
-    for mname in ("wiring", "pe", "range-cut", "eff-angle", "eff-angle-boundary", "inv-square", "history"):
+    for mname in ("config-history", "wiring", "pe", "range-cut", "eff-angle", "eff-angle-boundary", "inv-square", "history"):
         ctx.require(mname)
     return ctx.finish(
         rule="batches through the real EAS.__call__ for detector altitudes {33, 525, 1000[, 100, 36000]} km (inverse-square clause also 21, 15, 5 km: detectors below some of the decays) x 3 (area, efficiency, threshold) settings: beta in [0, 42 deg], shower energies 1e-4..3e3 x 100 PeV, decay altitudes uniform in [0,20] km with 10 hostile values (-inf, -5, -1e-9, -5e-324, 0, 20, 20+ulp, 20+1e-9, 1e3, +inf) at random positions; thresholds placed so that PE/threshold is exactly 2 and one ulp either side; two-detector runs of the kernel for the inverse-square clause; a case is a distinct (detector, beta, altitude, energy)",
